@@ -10,7 +10,7 @@ from ..trace import split_units
 ID = "C01"
 LEVEL = "exploration"
 WORLDS = [(1, "plain")]
-BUDGET = {"quick": dict(cases=1200, fuzz_s=8), "thorough": dict(cases=25000, fuzz_s=90)}
+BUDGET = {"quick": dict(cases=1200, fuzz_s=90, fuzz_runs=12000), "thorough": dict(cases=25000, fuzz_s=90)}
 MIN_NONTRIVIAL = {"quick": 300, "thorough": 3000}
 RULE = ("Hypothesis byte-backed generator: table of 1-12 commands built from shared stems (ambiguous / unique / exact "
         "abbreviations), all handler subsets, scripts of 0-3 NEXT/DATA_NEXT then a terminal code, command capacity 6-64, "
@@ -77,13 +77,29 @@ def gen_case(d, tier):
         inp += G.add_crs(d, ln)
     if d.unlikely(1, 10):
         inp += d.pick([b"AT", b"A", b"AT+T=1", b"\r"])   # unterminated tail: no result code expected
+    # one case in four: unsolicited events of commands that no line names ('~' is not typed by the line grammar), raised at
+    # generated steps / line barriers; their texts may or may not fit the unsolicited buffer (an event that does not fit is
+    # dropped - it must not cost or add a result code on the command channel)
+    actions = []
+    nev = 0
+    if d.chance(1, 4):
+        for _ in range(d.rng(1, 2)):
+            cmds.append(S.mk_cmd(b"~E" + bytes(d.pick(b"abcXYZ019") for _ in range(d.below(10))), "",
+                                 [S.mk_var(S.INT, 1, S.RW, bytes([d.below(100)]), name=b"v" if d.below(2) else None)]))
+            nev += 1
+        for _ in range(d.rng(1, 5)):
+            ci = len(cmds) - 1 - d.below(nev)
+            if d.below(2):
+                actions.append([S.AT_STEP, d.below(40 * (nlines + 1)), S.WA_TRIG, ci, d.below(2), None])
+            else:
+                actions.append([S.AT_LINE, d.below(nlines + 1), S.WA_TRIG, ci, d.below(2), None])
     groups = G.g_groups(d, cmds)
     shared = d.below(2) == 0
     s = S.mk_spec(groups=groups, input=bytes(inp), shared=shared, bufsz=(2 * cc + d.below(2)) if shared else cc,
-                  ubufsz=d.pick([0, 8, 32]), rs=G.g_sched(d), ws=G.g_sched(d))
+                  ubufsz=d.pick([4, 6, 8, 12, 32]) if nev else d.pick([0, 8, 32]), rs=G.g_sched(d), ws=G.g_sched(d), actions=actions)
     if (len(cmds) + 3) // 4 > S.ccap(s):
         return None
-    return dict(spec=s, meta=dict(broken=broken))
+    return dict(spec=s, meta=dict(broken=broken, events=nev))
 
 
 def gen(d, tier):
@@ -138,7 +154,9 @@ def oracle(s, t):
             need = nb[min(e.lf, len(nb) - 1)]
             if done < need:
                 return ("read-ahead", "input offset %d (byte %02x) handed out after %d non-blank lines were terminated but only %d result codes were complete" % (e.off, e.byte, need, done))
-    # (b) blank lines and the time before the first LF produce no output
+    # (b) blank lines and the time before the first LF produce no output (event texts may appear anywhere: not checked with events)
+    if s["actions"]:
+        return None
     seg = t.out_by_line(len(lines))
     if seg[0]:
         return ("early-output", "output before any LF was consumed: %r" % seg[0])
@@ -175,6 +193,12 @@ def run(case, W):
         labels.append("handler-ran")
     if tail:
         labels.append("unterminated-tail")
+    if s["actions"]:
+        labels.append("with-events")
+        ev_units = sum(1 for u in split_units(t.out)[0] if u[0] == "unit" and u[1][:1] == b"~")
+        trig_ok = sum(1 for a in t.apis if a.name.startswith("trig") and a.result == 0)
+        if trig_ok > ev_units:
+            labels.append("event-accepted-without-output")
     return Result(labels=labels, nontrivial=(nbl >= 2 and broken >= 1))
 
 
@@ -209,7 +233,7 @@ def prebuild(tier):
 
 def campaign(tier, seed, nworkers):
     """coverage-guided byte-level search with the streaming C01 monitor inside the target (world/fuzz_c01.c)"""
-    return fuzz.campaign(ID, "c01", (1,), BUDGET[tier]["fuzz_s"], seed, nworkers, max_len=800)
+    return fuzz.campaign(ID, "c01", (1,), BUDGET[tier]["fuzz_s"], seed, nworkers, max_len=800, runs=BUDGET[tier].get("fuzz_runs"))
 
 
 replay_artifact = fuzz.replay_artifact
